@@ -116,6 +116,8 @@ func c01Run(sc c01Scn) c01Outcome {
 		motd = []string{"Welcome to the test system"}
 	case 2:
 		motd = []string{"Welcome", "second line of text"}
+	case 3: // bracketed tokens inside the text: only a whole line in brackets is a SID
+		motd = []string{"Sysop is Joe [LA1B-10], other ports: see web page", "News [2016-03-01]"}
 	}
 	st := [2]sess.Station{
 		{Call: calls[0], Locator: "JO39EQ", Master: !sc.MasterB, Gzip: sc.GzipA, Handler: boxes[0].Handler()},
@@ -253,7 +255,7 @@ func c01Run(sc c01Scn) c01Outcome {
 }
 
 func c01Scenarios(dev int) []c01Scn {
-	sizes := []int{nMsgShapes, nMsgShapes, c01NPolicies, 2, 3, 2, 2, 2, 2, len(c01Segs)}
+	sizes := []int{nMsgShapes, nMsgShapes, c01NPolicies, 2, 4, 2, 2, 2, 2, len(c01Segs)}
 	var out []c01Scn
 	devProduct(sizes, dev, func(x []int) {
 		out = append(out, c01Scn{SetA: c01Shape(x[0], 2), SetB: c01Shape(x[1], 1), Policy: x[2], MasterB: x[3] == 1, MOTD: x[4],
